@@ -14,6 +14,7 @@ from ..core import Ctx, PropSpec, Unsupported
 from ..extract import (body_raises, calls, expand_straightline, flatten_binop, fn_stmts, raises_type, range_guard, resolve_local, returns,
                        single_def, stmt_site, where)
 from ..normalize import inline_helpers
+from ..roles import bits_name
 from ..program import AnchorMissing
 
 # CCSDS 133.0-B-2, 4.1.3: field -> (start bit, width) inside the 48-bit primary header
@@ -45,7 +46,7 @@ def accessor_table(ctx: Ctx) -> Dict[str, Tuple[Optional[int], Optional[int], as
         if len(rets) != 1 or rets[0].value is None:
             continue
         v = rets[0].value
-        if isinstance(v, ast.Call) and (dotted(v.func) or "").endswith("_extract_bits") and len(v.args) == 3:
+        if isinstance(v, ast.Call) and (dotted(v.func) or "").split(".")[-1] == bits_name(prog) and len(v.args) == 3:
             if dotted(v.args[0]) != "self":
                 continue
             s = prog.fold_opt(v.args[1], PK, cls="RawPacketData")
@@ -281,7 +282,7 @@ def check(ctx: Ctx) -> None:
     try:
         fg = prog.func(f"{PK}::ccsds_generator")
         hit = None
-        for c in calls(fg, "_extract_bits"):
+        for c in calls(fg, bits_name(prog)):
             if len(c.args) == 3:
                 s = prog.fold_opt(c.args[1], PK)
                 w = prog.fold_opt(c.args[2], PK)
